@@ -311,7 +311,11 @@ func runC02(x *xctx) *violation {
 			"00400000-00500000 r-xp 00000000 00:00 0\n",
 			"",
 		}
-		buf.WriteString("MAPPED_LIBRARIES:\n" + trailers[t.Choose(K, len(trailers))])
+		tr := trailers[t.Choose(K, len(trailers))]
+		if t.Bool(K, 25) {
+			tr = "00400000-00500000 r-xp 00000000 fd:01 1234       " + dictStr(t, "/bin/prog") + "\n"
+		}
+		buf.WriteString("MAPPED_LIBRARIES:\n" + tr)
 		name, data = "generated.profilez", buf.Bytes()
 	}
 	if data == nil {
